@@ -785,7 +785,12 @@ class Sem:
         # `?` on the unconditional spine
         for t in _spine(e):
             if is_try(t):
-                out.append((F_atom(Atom("ok", node=peel(try_inner(t)), frame=frame)), True))
+                inner = peel(try_inner(t))
+                out.append((F_atom(Atom("ok", node=inner, frame=frame)), True))
+                if inner.get("k") in ("Call", "MethodCall") and frame.depth < self.max_depth:
+                    fo = self.ok_formula(inner, frame)
+                    if fo is not None and fo != ("true",):
+                        out.append((fo, True))
         f = self.survive(e, frame)
         if f != ("true",):
             out.append((f, True))
@@ -799,6 +804,14 @@ class Sem:
         if depth > 6:
             return ("true",)
         k = e.get("k")
+        if k == "Match" and is_try(e):
+            inner = peel(try_inner(e))
+            parts = [F_atom(Atom("ok", node=inner, frame=frame))]
+            if inner.get("k") in ("Call", "MethodCall") and frame.depth < self.max_depth:
+                fo = self.ok_formula(inner, frame)
+                if fo is not None:
+                    parts.append(fo)
+            return f_and(parts)
         if k == "If":
             t = self.survive(e["then"], frame, depth + 1)
             f = self.survive(e["else"], frame, depth + 1) if "else" in e else ("true",)
@@ -943,9 +956,33 @@ class Sem:
     def result_leaves(self):
         return self._leaves(self.h["body"], lambda s: s.frame is self.root and not s.in_closure)
 
-    def _leaves(self, body, own):
+    def ok_formula(self, call, frame):
+        """for `helper(..)?` on a private helper of the same file: the condition under which the helper returns Ok / Some,
+        i.e. the disjunction of the path conditions of its success leaves (None if the helper is not followed)"""
+        h2 = self.should_inline(call, frame)
+        if h2 is None:
+            return None
+        f2 = self._enter(h2, call, frame)
+        sites2 = list(self._visit(h2["body"], (), f2, (), False))
+        leaves = self._leaves(h2["body"], lambda s_: s_.frame is f2 and not s_.in_closure, sites2)
+        good = []
+        for x in leaves:
+            n = strip(x.node)
+            head = ctor_head(n)
+            if head in ("Result::Ok", "Option::Some"):
+                good.append(f_and([f if pol else F_not(f) for f, pol in x.pc]))
+            elif head in ("Result::Err", "Option::None"):
+                continue
+            else:
+                return None       # a leaf whose outcome is not evident (e.g. another fallible call)
+        if not good:
+            return None
+        return f_or(good)
+
+    def _leaves(self, body, own, sites=None):
         out = []
-        site_of = {id(s.node): s for s in self.sites() if own(s)}
+        all_sites = sites if sites is not None else self.sites()
+        site_of = {id(s.node): s for s in all_sites if own(s)}
 
         def leaves(n, into):
             n0 = n
@@ -965,14 +1002,14 @@ class Sem:
                 into.append(n)
         top = []
         leaves(body, top)
-        for s in self.sites():
+        for s in all_sites:
             if own(s) and s.node.get("k") == "Ret" and "e" in s.node and not s.node.get("x"):
                 leaves(s.node["e"], top)
         for n in top:
             s = site_of.get(id(n))
             if s is None:
                 # stripped wrappers: find the innermost site containing it
-                for cand in self.sites():
+                for cand in all_sites:
                     if own(cand) and strip(cand.node) is n:
                         s = cand
                         break
